@@ -7,7 +7,7 @@ STATUSES = [200, 400, 404, 408, 429, 500, 505, 520]
 
 def run(chk):
     quick = chk.tier == "quick"
-    chk.rule = ("random allow-lists (0-6 peers of 8) and request lists (sender listed / unlisted / absent), and closure authorizers "
+    chk.rule = ("random allow-lists (0-6 peers of 8; then one of every size 0-40, up to 300 in the thorough tier, in arbitrary order, every listed sender asked for) and request lists (sender listed / unlisted / absent), and closure authorizers "
                 "returning arbitrary (status, body) refusals or accepting while mutating the request; a quarter of the allow-list cases stack two allow-list layers with different lists; run sequentially and from 2-8 threads "
                 "through clones; distinct = case text; non-trivial = the request list contains both accepted and refused requests")
     if not chk.prepare():
@@ -35,6 +35,17 @@ def run(chk):
                 else:
                     reqs.append("d%d:%s" % (rng.choice(STATUSES), rng.choice(["0", "nope", "x", "denied-%d" % rng.randrange(100)])))
             cases.append("authfn %d %s" % (threads, " ".join(reqs)))
+    # allow-lists of every size (0-40 in every run, up to 300 in the thorough tier) over a universe of up to 400 identities,
+    # given in arbitrary order: every listed sender is asked for at least once, plus some unlisted ones and an absent identity
+    sizes = list(range(0, 41)) + ([] if quick else [63, 64, 65, 127, 128, 129, 255, 256, 257, 300] + [chk.rng.randrange(41, 300) for _ in range(40)])
+    for L in sizes:
+        rng = chk.rng
+        universe = max(8, L + rng.randrange(3, 40))
+        allow = rng.sample(range(universe), L)
+        others = [p for p in range(universe) if p not in allow]
+        reqs = ["s%d" % p for p in allow] + ["s%d" % p for p in rng.sample(others, min(len(others), 5))] + ["n"]
+        rng.shuffle(reqs)
+        cases.append("authallow %s %d %s" % (",".join(map(str, allow)) or "-", rng.choice([1, 1, 4]), " ".join(reqs)))
     ci = run_impl("layers", cases)
     # stacked allow-lists: the model is the single layer with the intersection of the two lists
     def single(c):
